@@ -106,6 +106,87 @@ func c09yNames(h []int) []string {
 	return out
 }
 
+// backend outcomes: what the backend answers (or that it fails) does not change what the
+// limiter has spent - a request that was forwarded cost a token whatever became of it.
+var c09yModes = []string{"ok", "404", "500", "refuse", "abort", "timeout", "103+500"}
+
+type c09yOutcomeReplay struct {
+	Max     int
+	Feature string
+	Events  []int
+}
+
+func c09yRunOutcomes(max int, feature string, hist []int) (key, what, out string, v vrt.Verdict) {
+	s := vrt.Run(vrt.Options{}, func(s *vrt.Sched) {
+		o := kitOpts{N: 2, Limiter: &config.RateLimitConfig{Enabled: true, MaxTokens: max, RefillRate: 1}}
+		switch feature {
+		case "breaker":
+			o.Breaker = &config.CircuitBreakerConfig{Enabled: true, MaxRequests: 1, IntervalSeconds: 5, TimeoutSeconds: 3, FailureThreshold: 2, SuccessThreshold: 1}
+		case "passive":
+			o.PassiveThr, o.Window = 1, 10
+		}
+		k := newKit(s, o)
+		type arr struct {
+			t         time.Duration
+			forwarded bool
+			limited   bool
+		}
+		var arrs []arr
+		for _, e := range hist {
+			if e >= len(c09yModes) {
+				s.AdvanceQuiet(1100 * time.Millisecond)
+				out += "+"
+				continue
+			}
+			before := 0
+			for _, h := range k.hitsVector() {
+				before += h
+			}
+			res := k.requestMode("10.1.1.1", c09yModes[e])
+			after := 0
+			for _, h := range k.hitsVector() {
+				after += h
+			}
+			if res.Status == 429 && after != before {
+				key, what = "C09/sys/rejected-request-forwarded", fmt.Sprintf("a request answered 429 reached a backend (backend behaviour %s)", c09yModes[e])
+			}
+			arrs = append(arrs, arr{s.Clock(), after != before, res.Status == 429})
+			out += fmt.Sprintf("%d,", res.Status)
+		}
+		for i := range arrs {
+			fwd, adm := 0, 0
+			for j := i; j < len(arrs); j++ {
+				if arrs[j].forwarded {
+					fwd++
+				}
+				if !arrs[j].limited {
+					adm++
+				}
+				bound := max + int((arrs[j].t-arrs[i].t)/time.Second) + 1
+				if fwd > bound && key == "" {
+					key, what = "C09/sys/more-forwarded-than-the-bound", fmt.Sprintf("%d requests of one client were forwarded to a backend between t=%v and t=%v, bound max+floor(T/refill)+1 = %d (max_tokens=%d): what the backend answered gave tokens back", fwd, arrs[i].t, arrs[j].t, bound, max)
+				}
+				if adm > bound && key == "" {
+					key, what = "C09/sys/more-admitted-than-the-bound", fmt.Sprintf("%d requests of one client got an answer other than 429 between t=%v and t=%v, bound %d (max_tokens=%d)", adm, arrs[i].t, arrs[j].t, bound, max)
+				}
+			}
+		}
+	})
+	return key, what, out, s.Verdict
+}
+
+func c09yOutcomeNames(h []int) []string {
+	out := make([]string, len(h))
+	for i, e := range h {
+		if e < len(c09yModes) {
+			out[i] = "req:" + c09yModes[e]
+		} else {
+			out[i] = "+1.1s"
+		}
+	}
+	return out
+}
+
 type c09yReplay struct {
 	Max    int
 	Events []int
@@ -178,5 +259,48 @@ func TestVerifC09Sys(t *testing.T) {
 		r.AddScenario(vres.Scenario{Name: fmt.Sprintf("limiter-sys-max%d", max), Engine: "H", Executions: evals, States: evals, Transitions: evals * int64(depth),
 			Outcomes: outs.N(), Bound: fmt.Sprintf("all histories of length %d over %d address spellings of two clients and a clock step, through ServeHTTP", depth, len(c09ySpellings)),
 			Exhaustive: true, Sample: map[string]interface{}{"history": c09yNames(hist)}, Extra: map[string]interface{}{"wall_s": time.Since(start).Seconds()}})
+	}
+	// backend outcomes x features
+	odepth := 5
+	if vres.Thorough() {
+		odepth = 6
+	}
+	onev := len(c09yModes) + 1
+	shardNo := 0
+	for _, feature := range []string{"plain", "breaker", "passive"} {
+		for max := 1; max <= 2; max++ {
+			shardNo++
+			if !vh.MyShard(shardNo) {
+				continue
+			}
+			start := time.Now()
+			var evals int64
+			var outs vres.Outcomes
+			hist := make([]int, odepth)
+			var rec func(d int)
+			rec = func(d int) {
+				if d == odepth {
+					key, what, out, v := c09yRunOutcomes(max, feature, hist)
+					evals++
+					if v.Kind != vrt.OK {
+						key, what = "C09/sys/"+v.Kind.String(), v.Detail
+					}
+					outs.Add(out)
+					if key != "" {
+						hh := append([]int(nil), hist...)
+						r.Violate(key, fmt.Sprintf("max_tokens=%d, %s: %s | history %v", max, feature, what, c09yOutcomeNames(hh)), len(hh), map[string]interface{}{"engine": "H", "test": "TestVerifC09Sys", "outcomes": c09yOutcomeReplay{max, feature, hh}})
+					}
+					return
+				}
+				for e := 0; e < onev; e++ {
+					hist[d] = e
+					rec(d + 1)
+				}
+			}
+			rec(0)
+			r.AddScenario(vres.Scenario{Name: fmt.Sprintf("limiter-sys-backend-outcomes-%s-max%d", feature, max), Engine: "H", Executions: evals, States: evals, Transitions: evals * int64(odepth),
+				Outcomes: outs.N(), Bound: fmt.Sprintf("all histories of length %d of one client over %d backend behaviours and a clock step, through ServeHTTP, feature %s", odepth, len(c09yModes), feature),
+				Exhaustive: true, Extra: map[string]interface{}{"wall_s": time.Since(start).Seconds()}})
+		}
 	}
 }
